@@ -95,7 +95,7 @@ def run(R, tier):
         a = fimpl("arrayvec::ArrayVec", meth)
         v = fimpl("alloc::vec::Vec", meth)
         sa_, sv_ = summary(a), summary(v)
-        R.check(sa_ == sv_, "R11.2", "siblings:" + meth, "Vec and ArrayVec formatters behave identically (%d paths)" % len(sa_), "formatter impls disagree on %s: ArrayVec %s vs Vec %s - the bytes would differ between a growable and a fixed buffer" % (meth, sorted(sa_)[:2], sorted(sv_)[:2]), where=a.span)
+        R.check(sa_ == sv_, "R11.2", "siblings:" + meth, "Vec and ArrayVec formatters behave identically (%d paths)" % len(sa_), "formatter impls disagree on %s: ArrayVec %s vs Vec %s - the bytes would differ between a growable and a fixed buffer" % (meth, sorted(sa_, key=repr)[:2], sorted(sv_, key=repr)[:2]), where=a.span)
     for meth, callee in (("push_str", "extend_from_slice"), ("push_byte", "push")):
         b = fimpl("alloc::vec::Vec", meth)
         ps = [CB.Path(r) for r in eng.run(b, [RefV(Cell(TOP, "buf"), (), True), SymV("arg", "arg")])]
